@@ -4,7 +4,7 @@ from typing_extensions import Literal
 from statham.schema.constants import NotPassed
 from statham.schema.elements.base import Element
 from statham.schema.helpers import remove_duplicates
-from statham.schema.exceptions import ValidationError
+from statham.schema.exceptions import _display, ValidationError
 from statham.schema.property import _Property
 
 
@@ -32,7 +32,7 @@ class Not(Element[T]):
         except (TypeError, ValidationError):
             return value
         raise ValidationError.from_validator(
-            property_, value, f"Must not match {self.element}."
+            property_, value, f"Must not match {_display(self.element, str)}."
         )
 
 
